@@ -280,7 +280,72 @@ def native_replay(rep):
     import os, sys
     sys.path.insert(0, os.path.dirname(os.path.dirname(os.path.abspath(__file__))))
     from native import c14_bounded
+    if str(rep.get("target", "")).endswith("CellCycleController.advance"):
+        # the phase machine on its own: every phase x every answer of a scripted checkpoint (incl. one that raises), registry compared before and after
+        from operon_ai.coordination.controller import CellCycleController
+        from operon_ai.coordination.types import Phase, CheckpointResult, ResourceLock
+
+        class _Cp:
+            def __init__(self, ans):
+                self.ans, self.name = ans, "scripted"
+
+            def evaluate(self, ctx):
+                if self.ans == "raise":
+                    raise RuntimeError("checkpoint failed")
+                return self.ans
+        k = 0
+        for phase in list(Phase):
+            for answers in [[a] for a in list(CheckpointResult) + ["raise"]] + [[CheckpointResult.PASSED, a] for a in list(CheckpointResult) + ["raise"]]:
+                k += 1
+                c = CellCycleController()
+                for r_ in ("r1", "r2"):
+                    c.register_resource(ResourceLock(resource_id=r_))
+                ctx = c.start_operation("op", "agent")
+                other = c.start_operation("other", "agent2")
+                c.acquire_resource(ctx, "r1")
+                c.acquire_resource(other, "r2")
+                ctx.phase = phase
+                c.checkpoints = {phase: [_Cp(a) for a in answers]}
+
+                def snap():
+                    return (sorted(c.active_operations), {r_: l_.owner for r_, l_ in c.resources.items()}, sorted(ctx.acquired_resources),
+                            sorted(other.acquired_resources), other.phase)
+                before, res = snap(), None
+                try:
+                    res = c.advance(ctx)
+                except Exception as ex_:      # noqa
+                    res = f"raised {type(ex_).__name__}"
+                moved = ctx.phase != phase
+                if snap() != before or moved != (res == CheckpointResult.PASSED):
+                    return {"confirmed": True, "found_by": f"scripted checkpoints on the real controller ({k} cases)",
+                            "observed": f"advance() in phase {phase.name} with checkpoint answers {[getattr(a, 'name', a) for a in answers]} -> {getattr(res, 'name', res)}: "
+                                        f"phase moved={moved}; registry {before} -> {snap()}"}
     n, bad = c14_bounded.search(3)
     if bad is None:
         return {"confirmed": False, "observed": f"no leak / ordering violation among {n} fault-injection cases"}
     return {"confirmed": True, "observed": bad, "found_by": f"bounded fault injection ({n} cases)"}
+
+
+# ---------------------------------------------------------------- the phase machine execute_operation consults: `advance` is a havocked collaborator
+# there, "assumed not to touch the controller's registry" -- that assumption is its own obligation here: whatever the (havocked) checkpoints answer,
+# advancing moves only the operation's phase, never a resource, an ownership or the table of active operations, and only when every checkpoint passed
+shape("CellCycleControllerA", resources="dict:str,obj:ResourceLock", active_operations="dict:str,obj:OperationContext",
+      dependency_graph="obj:DependencyGraph", checkpoints="dict:enum:Phase,list:obj:Checkpoint")
+shape("Checkpoint", name="str")
+contract(FC + "::CellCycleController.advance", "C14", self_type="CellCycleControllerA", params={"ctx": "obj:OperationContext"},
+         ghost_params={"rid": "str"},
+         callbacks={"Checkpoint.evaluate": {"returns": "enum:CheckpointResult", "raises": ("Exception",)}}, raises=["Exception"],
+         modifies=["ctx.phase", "ctx.phase_entered_at"],
+         loops={"for checkpoint in checkpoints": {"invariant": ["ctx.phase == old(ctx).phase"]}},
+         ensures={"phase-moves-only-when-every-checkpoint-passed": "(result != CheckpointResult.PASSED) == (ctx.phase == old(ctx).phase)",
+                  "registry-untouched": "len(self.resources) == len(old(self).resources) and len(self.active_operations) == len(old(self).active_operations) "
+                                        "and implies(rid in self.resources, self.resources[rid].owner == old(self).resources[rid].owner) "
+                                        "and len(ctx.acquired_resources) == len(old(ctx).acquired_resources)"},
+         xensures={"registry-untouched-on-failure": "len(self.resources) == len(old(self).resources) and len(self.active_operations) == len(old(self).active_operations) "
+                                                    "and ctx.phase == old(ctx).phase"})
+# a checkpoint's own evaluation is total and two-valued: a condition that raises or answers falsy is a FAILED checkpoint, never an exception
+shape("CheckpointC", phase="enum:Phase", condition="callback", name="str")
+contract(FC + "::Checkpoint.evaluate", "C14", self_type="CheckpointC", params={"ctx": "obj:OperationContext"},
+         callbacks={"self.condition": {"returns": "any", "raises": ("Exception",)}}, raises=[],
+         ensures={"passed-or-failed": "result == CheckpointResult.PASSED or result == CheckpointResult.FAILED",
+                  "condition-consulted-once": "calls_to('condition') == 1"})
